@@ -1,3 +1,4 @@
 import GlotaranProofs.Props.C19
 import GlotaranProofs.Props.C02
 import GlotaranProofs.Props.C03
+import GlotaranProofs.Props.C15
